@@ -43,11 +43,20 @@ func c9BuildH265(par int, ra bool, pay, fill int) [][]byte {
 	return au
 }
 
-func c9CodecOf(codec string, sr int) codecs.Codec {
+func c9CodecOf(codec string, sr int) codecs.Codec { return c9CodecOfBf(codec, sr, false) }
+
+// c9CodecOfBf: `bf` = the track carries the frame-reordering pattern (its own parameter sets)
+func c9CodecOfBf(codec string, sr int, bf bool) codecs.Codec {
 	switch codec {
 	case "h264":
+		if bf {
+			return &codecs.H264{SPS: bfSPS, PPS: mxPPS(1)}
+		}
 		return &codecs.H264{SPS: mxSPS, PPS: mxPPS(1)}
 	case "h265":
+		if bf {
+			return &codecs.H265{VPS: bf5VPS, SPS: bf5SPS, PPS: bf5PPS}
+		}
 		return &codecs.H265{VPS: c9H265VPS, SPS: c9H265SPS, PPS: c9H265PPS}
 	case "aac":
 		return &codecs.MPEG4Audio{Config: mpeg4audio.Config{Type: 2, SampleRate: sr, ChannelCount: 2}}
@@ -175,13 +184,23 @@ func c9IDsOf(codec string, au [][]byte) []int {
 	case "h264":
 		for _, n := range c9Canon(codec, au) {
 			if len(n) >= 1 {
-				ids = append(ids, idOf(n[1:]))
+				id := idOf(n[1:])
+				if id < 0 && len(n) >= 11 {
+					id = idOf(n[6:]) // reordering pattern (muxer_bframes.go): 6 header bytes of the test vector, then the id
+				}
+				ids = append(ids, id)
 			}
 		}
 	case "h265":
 		for _, n := range c9Canon(codec, au) {
 			if len(n) >= 2 {
-				ids = append(ids, idOf(n[2:]))
+				id := idOf(n[2:])
+				for _, off := range []int{10, 20} { // reordering pattern: the id follows the 10 / 20 original bytes
+					if id < 0 && len(n) >= off+5 {
+						id = idOf(n[off:])
+					}
+				}
+				ids = append(ids, id)
 			}
 		}
 	case "vp9":
